@@ -26,9 +26,9 @@ use tonic::transport::Channel;
 
 pub static PANICS: AtomicI64 = AtomicI64::new(0);
 
-pub const WRITERS: [i64; 7] = [1, 2, 12, 16, 20, 21, 13];
+pub const WRITERS: [Tok; 7] = [1, 2, 12, 16, 20, 21, 13];
 
-fn sig_name(rpc: i64) -> String {
+pub fn sig_name(rpc: Tok) -> String {
     format!("Srv.R{}", rpc)
 }
 
@@ -68,7 +68,8 @@ fn auth_header(c: &mut Cur) -> Option<Option<String>> {
         (c.next()?, c.next()?, c.next()?, c.next()?, c.next()?, c.next()?, c.next()?, c.next()?);
     let now = SystemTime::now().duration_since(UNIX_EPOCH).unwrap().as_secs() as i64;
     let mut m = serde_json::Map::new();
-    let j = serde_json::Value::from;
+    let j = |x: &str| serde_json::Value::from(x);
+    let ji = |x: i64| serde_json::Value::from(x);
     if claims != 1 {
         m.insert("sub".into(), j("verif"));
     }
@@ -79,11 +80,11 @@ fn auth_header(c: &mut Cur) -> Option<Option<String>> {
         if claims == 8 {
             m.insert("iat".into(), j("yesterday"));
         } else {
-            m.insert("iat".into(), j(now - 10));
+            m.insert("iat".into(), ji(now - 10));
         }
     }
     if claims != 4 {
-        m.insert("exp".into(), j(now + exp as i64));
+        m.insert("exp".into(), ji(now + exp as i64));
     }
     if claims != 5 {
         m.insert(
@@ -150,7 +151,7 @@ fn auth_header(c: &mut Cur) -> Option<Option<String>> {
         }
         3 => {
             // payload replaced after signing (a later expiry), signature kept
-            m.insert("exp".into(), j(now + 999_999));
+            m.insert("exp".into(), ji(now + 999_999));
             let parts: Vec<&str> = token.split('.').collect();
             token = format!(
                 "{}.{}.{}",
@@ -174,7 +175,7 @@ fn auth_header(c: &mut Cur) -> Option<Option<String>> {
     }))
 }
 
-fn with_auth<T>(msg: T, hdr: &Option<String>) -> tonic::Request<T> {
+pub fn with_auth<T>(msg: T, hdr: &Option<String>) -> tonic::Request<T> {
     let mut r = tonic::Request::new(msg);
     if let Some(h) = hdr {
         if let Ok(v) = h.parse() {
@@ -184,14 +185,14 @@ fn with_auth<T>(msg: T, hdr: &Option<String>) -> tonic::Request<T> {
     r
 }
 
-fn code_of<T>(r: Result<T, tonic::Status>) -> Tok {
+pub fn code_of<T>(r: Result<T, tonic::Status>) -> Tok {
     match r {
         Ok(_) => 0,
         Err(s) => code_num(s.code()),
     }
 }
 
-async fn first<T>(r: Result<tonic::Response<tonic::Streaming<T>>, tonic::Status>) -> Tok {
+pub async fn first<T>(r: Result<tonic::Response<tonic::Streaming<T>>, tonic::Status>) -> Tok {
     match r {
         Err(s) => code_num(s.code()),
         Ok(resp) => {
@@ -205,19 +206,19 @@ async fn first<T>(r: Result<tonic::Response<tonic::Streaming<T>>, tonic::Status>
     }
 }
 
-fn v2_dp(k: i64) -> p2::Datapoint {
+pub fn v2_dp(k: Tok) -> p2::Datapoint {
     p2::Datapoint { timestamp: None, value: Some(p2::Value { typed_value: Some(p2::value::TypedValue::Int32(k as i32)) }) }
 }
 
-fn sdv_dp(k: i64) -> ps::Datapoint {
+pub fn sdv_dp(k: Tok) -> ps::Datapoint {
     ps::Datapoint { timestamp: None, value: Some(ps::datapoint::Value::Int32Value(k as i32)) }
 }
 
-fn v2_sig(name: &str) -> Option<p2::SignalId> {
+pub fn v2_sig(name: &str) -> Option<p2::SignalId> {
     Some(p2::SignalId { signal: Some(p2::signal_id::Signal::Path(name.to_string())) })
 }
 
-fn v1_update(name: &str, k: i64) -> p1::EntryUpdate {
+pub fn v1_update(name: &str, k: Tok) -> p1::EntryUpdate {
     p1::EntryUpdate {
         entry: Some(p1::DataEntry {
             path: name.to_string(),
@@ -230,7 +231,7 @@ fn v1_update(name: &str, k: i64) -> p1::EntryUpdate {
 }
 
 /// one call; `ids` maps signal names to ids
-pub async fn call(ch: &Channel, rpc: i64, variant: i64, k: i64, hdr: &Option<String>, ids: &HashMap<String, i32>) -> Tok {
+pub async fn call(ch: &Channel, rpc: Tok, variant: Tok, k: Tok, hdr: &Option<String>, ids: &HashMap<String, i32>) -> Tok {
     let name = sig_name(rpc);
     let id = *ids.get(&name).unwrap_or(&0);
     let mut v1 = p1::val_client::ValClient::new(ch.clone());
@@ -474,7 +475,7 @@ pub fn run_case(case: &[Vec<Tok>]) -> Vec<Vec<Tok>> {
                         Ok(c) => c,
                         Err(_) => -88, // no answer
                     };
-                    out.push(vec![code, PANICS.load(Ordering::SeqCst)]);
+                    out.push(vec![code, PANICS.load(Ordering::SeqCst) as Tok]);
                 }
                 Some(2) => out.extend(srv.dump().await),
                 _ => out.push(vec![-1]),
